@@ -27,7 +27,7 @@ FIELDS_T = dict(lock="int", go="bool", halting="bool", open="bool", active="bool
                 it="int", written="int", created="bool", closed="int", paused_by_user="bool", crashed="bool")
 NOFAULT = 500          # value of fault<p> meaning "the backend never fails for this player"
 FIELDS_M = dict(finished="bool", lock="int", halting="int", nthreads="int", terminated="int", raised="int",
-                order_bad="bool", assert_bad="bool", closed_ret="bool", in_close="bool")
+                order_bad="bool", assert_bad="bool", closed_ret="bool", in_close="bool", closed2_ret="bool", c2_bad="bool", close_called="bool")
 
 TRUE = lambda s: z3.BoolVal(True)
 NOUPD = lambda s: {}
@@ -79,11 +79,15 @@ def _compose(A, B):
 
 
 class Model:
-  def __init__(self, path, P=1, LMAX=2, H=1, ops=("pause", "play", "stop"), reduce=True, faults=False):
+  def __init__(self, path, P=1, LMAX=2, H=1, ops=("pause", "play", "stop"), reduce=True, faults=False, closers=1):
     """faults=True: the backend may fail - for each player the write of one solver-chosen chunk may raise (fault<p> is the
     index of that chunk, or NOFAULT); the exception propagates through `with` / `try-finally` like in Python and, when
     nothing catches it, ends the player thread."""
     self.path, self.P, self.LMAX, self.H, self.ops, self.faults = path, P, LMAX, H, list(ops), faults
+    # closers=2: a second thread calls AudioIO.close() concurrently with the main thread's close() (terminate(), a
+    # with-block exit in another thread, __del__); every close call must have its postconditions when IT returns
+    self.closers = closers
+    self.C2 = P + 1
     tree = ast.parse(open(path).read())
     self.CLS = {c.name: {f.name: f for f in c.body if isinstance(f, ast.FunctionDef)}
                 for c in tree.body if isinstance(c, ast.ClassDef)}
@@ -102,6 +106,8 @@ class Model:
     self.progs[MAIN], self.entries[MAIN] = mp, me
     for p in range(P):
       self.progs[p + 1], self.entries[p + 1] = self.player_prog(p)
+    if closers == 2:
+      self.progs[self.C2], self.entries[self.C2] = self.closer_prog()
     self.nodes_before_reduction = self.nodes_total()
     if reduce:
       for th in self.progs:
@@ -132,6 +138,10 @@ class Model:
     s["pc0"] = IC("pc0@%d" % t)
     s["main.thread"] = IC("main.thread@%d" % t)
     s["main.idx"] = IC("main.idx@%d" % t)
+    if self.closers == 2:
+      s["pc%d" % self.C2] = IC("pc%d@%d" % (self.C2, t))
+      s["c2.thread"] = IC("c2.thread@%d" % t)
+      s["c2.idx"] = IC("c2.idx@%d" % t)
     return s
 
   def fget(self, s, recv, field):
@@ -214,7 +224,8 @@ class Model:
       if len(st.items) != 1: raise Unsupported("with with several items (line %d)" % ln)
       recv, field = self.lock_name(st.items[0].context_expr, env)
       rel = prog.new()
-      mainonly = (recv[0] == "M" and field == "halting")          # AudioIO.halting is only ever taken by the main thread
+      # AudioIO.halting is only ever taken by the main thread - unless a second thread closes the manager too
+      mainonly = (recv[0] == "M" and field == "halting" and self.closers == 1)
       # CPython attributes the __exit__ call to the `with` line: a second 'line' event there marks the release
       prog.add(rel, TRUE, lambda s, recv=recv, field=field: self._upd(s, recv, field, IV(-1)), lambda s: IV(k_next),
                ln, "release %s.%s" % (recv[0], field), kind="local" if mainonly else "rel")
@@ -229,6 +240,18 @@ class Model:
       prog.add(lab, lambda s, recv=recv, field=field: self.fget(s, recv, field) == -1,
                lambda s, recv=recv, field=field: self._upd(s, recv, field, IV(me)), lambda s: IV(body),
                ln, "acquire %s.%s" % (recv[0], field), kind="acq")
+      return lab
+    if isinstance(st, ast.If) and self._try_acquire(st.test) is not None:
+      # `if [not] <lock>.acquire(False):` - one atomic test-and-set
+      neg, lock_expr = self._try_acquire(st.test)
+      recv, field = self.lock_name(lock_expr, env)
+      then = self.compile_block(prog, st.body, env, k_next, k_break, k_ret)
+      els = self.compile_block(prog, st.orelse, env, k_next, k_break, k_ret)
+      got, failed = (els, then) if neg else (then, els)
+      free = lambda s, recv=recv, field=field: self.fget(s, recv, field) == -1
+      prog.add(lab, TRUE,
+               lambda s, recv=recv, field=field: self._upd(s, recv, field, z3.If(free(s), IV(me), self.fget(s, recv, field))),
+               lambda s: z3.If(free(s), IV(got), IV(failed)), ln, "if %s" % src(st.test), kind="other")
       return lab
     if isinstance(st, ast.If):
       then = self.compile_block(prog, st.body, env, k_next, k_break, k_ret)
@@ -252,15 +275,16 @@ class Model:
     if isinstance(st, ast.For) and src(st.iter) == "self._threads" and src(st.target) == "thread" and not st.orelse \
        and env["self"][0] == "M":
       # list iterator over the *live* list: index based, sees removals made meanwhile
-      body = self.compile_block(prog, st.body, dict(env, thread=("T", "main.thread")), lab, k_next, k_ret)
+      tv = env.get("thread", ("T", "main.thread"))[1]; iv = tv.replace(".thread", ".idx")
+      body = self.compile_block(prog, st.body, dict(env, thread=("T", tv)), lab, k_next, k_ret)
       init = prog.new()
-      prog.add(init, TRUE, lambda s: {"main.idx": IV(0)}, lambda s: IV(lab), None, "iter(self._threads)", kind="local")
+      prog.add(init, TRUE, lambda s: {iv: IV(0)}, lambda s: IV(lab), None, "iter(self._threads)", kind="local")
       def eff(s):
         cur = s["M.threads%d" % (self.P - 1)]
-        for i in range(self.P - 2, -1, -1): cur = z3.If(s["main.idx"] == i, s["M.threads%d" % i], cur)
-        more = s["main.idx"] < s["M.nthreads"]
-        return {"main.thread": z3.If(more, cur, s["main.thread"]), "main.idx": z3.If(more, s["main.idx"] + 1, s["main.idx"])}
-      prog.add(lab, TRUE, eff, lambda s: z3.If(s["main.idx"] < s["M.nthreads"], IV(body), IV(k_next)), ln,
+        for i in range(self.P - 2, -1, -1): cur = z3.If(s[iv] == i, s["M.threads%d" % i], cur)
+        more = s[iv] < s["M.nthreads"]
+        return {tv: z3.If(more, cur, s[tv]), iv: z3.If(more, s[iv] + 1, s[iv])}
+      prog.add(lab, TRUE, eff, lambda s: z3.If(s[iv] < s["M.nthreads"], IV(body), IV(k_next)), ln,
                "for thread in self._threads")
       return init
     if isinstance(st, ast.For):
@@ -292,7 +316,8 @@ class Model:
               src(st.handlers[0].type) == "IndexError" and not st.orelse and not st.finalbody):
         raise Unsupported("try block %r (line %d)" % (src(st)[:80], ln))
       handler = self.compile_block(prog, st.handlers[0].body, env, k_next, k_break, k_ret)
-      prog.add(lab, TRUE, lambda s: {"main.thread": s["M.threads0"]},
+      tv = env.get("thread", ("T", "main.thread"))[1]
+      prog.add(lab, TRUE, lambda s, tv=tv: {tv: s["M.threads0"]},
                lambda s: z3.If(s["M.nthreads"] > 0, IV(k_next), IV(handler)), st.body[0].lineno, "thread = self._threads[0]")
       return lab
     if isinstance(st, ast.Assert):
@@ -303,6 +328,17 @@ class Model:
       return self.compile_simple(prog, lab, st, env, k_next, k_break, k_ret)
     raise Unsupported("statement %r (line %d)" % (src(st)[:80], ln))
 
+  def _try_acquire(self, test):
+    """-> (negated, lock expression) when `test` is `[not] X.acquire(False)` / `X.acquire(blocking=False)`, else None"""
+    neg = False
+    if isinstance(test, ast.UnaryOp) and isinstance(test.op, ast.Not):
+      neg, test = True, test.operand
+    if isinstance(test, ast.Call) and isinstance(test.func, ast.Attribute) and test.func.attr == "acquire":
+      args = [src(a) for a in test.args] + ["%s=%s" % (k.arg, src(k.value)) for k in test.keywords]
+      if args in (["False"], ["blocking=False"], ["0"]):
+        return neg, test.func.value
+    return None
+
   def compile_simple(self, prog, lab, st, env, k_next, k_break, k_ret):
     t = src(st)
     ln = st.lineno
@@ -312,6 +348,12 @@ class Model:
     def simple(effect, guard=TRUE, what=None, kind="other"):
       prog.add(lab, guard, effect, nxt, ln, what or t, kind=kind)
       return lab
+    if t in ("self.halting.release()", "self.lock.release()", "self.halting.acquire()", "self.lock.acquire()") and \
+       not (t.startswith("self.halting") and self_[0] == "T"):
+      recv, field = (self_, t.split(".")[1])
+      if t.endswith("release()"):
+        return simple(lambda s: _upd(s, recv, field, IV(-1)), kind="rel")
+      return simple(lambda s: _upd(s, recv, field, IV(prog.me)), lambda s: fget(s, recv, field) == -1, kind="acq")
     if self_[0] == "T":
       if t == "st = self.stream._stream": return k_next
       if t.startswith("self.write_stream(st, chunk"):
@@ -403,6 +445,22 @@ class Model:
     entry = self.compile_block(prog, self.CLS["AudioThread"]["run"].body, {"self": ("T", p), "exc": dead}, done, None, done)
     return prog, entry
 
+  def _bad_after_close(self, s):
+    """what must NOT be the case when a close() call returns"""
+    return z3.Or(s["M.terminated"] != 1,
+                 *[z3.And(s["T%d.created" % p], z3.Or(s["T%d.open" % p], s["T%d.closed" % p] != 1)) for p in range(self.P)])
+
+  def closer_prog(self):
+    prog = Prog(self.C2)
+    fin = prog.new()
+    prog.add(fin, TRUE, lambda s: {"M.closed2_ret": z3.BoolVal(True), "M.c2_bad": self._bad_after_close(s)}, lambda s: IV(END),
+             None, "second close() returned", kind="other")
+    k = self.inline(prog, "AudioIO", "close", {"self": ("M",), "thread": ("T", "c2.thread")}, fin)
+    start = prog.new()
+    # the second closer arrives at any moment once the main thread has called close() (either may get the lock first)
+    prog.add(start, lambda s: s["M.close_called"], NOUPD, lambda s, k=k: IV(k), None, "second thread calls close()", kind="other")
+    return prog, start
+
   def main_prog(self):
     prog = Prog(MAIN)
     fin = prog.new()
@@ -413,7 +471,8 @@ class Model:
     prog.add(mark2, TRUE, lambda s: {"M.in_close": z3.BoolVal(False)}, lambda s: IV(after), None, "close() returned", kind="local")
     k = self.inline(prog, "AudioIO", "close", {"self": ("M",), "thread": ("T", "main.thread")}, mark2)
     mark = prog.new()
-    prog.add(mark, TRUE, lambda s: {"M.in_close": z3.BoolVal(True)}, lambda s, k=k: IV(k), None, "close() called", kind="local")
+    prog.add(mark, TRUE, lambda s: {"M.in_close": z3.BoolVal(True), "M.close_called": z3.BoolVal(True)}, lambda s, k=k: IV(k), None,
+             "close() called", kind="local" if self.closers == 1 else "other")
     k = mark
     opcode = {"pause": 1, "play": 2, "stop": 3}
     for h in reversed(range(self.H)):
@@ -495,6 +554,8 @@ class Model:
   # ---- transition relation -------------------------------------------------------------------------
   def init_constraints(self, s):
     c = [s["pc0"] == self.entries[MAIN], s["main.thread"] == -1, s["main.idx"] == 0]
+    if self.closers == 2:
+      c += [s["pc%d" % self.C2] == self.entries[self.C2], s["c2.thread"] == -1, s["c2.idx"] == 0]
     for p in range(self.P):
       c += [s["pc%d" % (p + 1)] == self.entries[p + 1], s["T%d.lock" % p] == -1, z3.Not(s["T%d.go" % p]),
             z3.Not(s["T%d.halting" % p]), z3.Not(s["T%d.open" % p]), z3.Not(s["T%d.active" % p]),
@@ -506,7 +567,7 @@ class Model:
             s["M.threads%d" % p] == -1]
     c += [z3.Not(s["M.finished"]), s["M.lock"] == -1, s["M.halting"] == -1, s["M.nthreads"] == 0,
           s["M.terminated"] == 0, s["M.raised"] == 0, z3.Not(s["M.order_bad"]), z3.Not(s["M.assert_bad"]),
-          z3.Not(s["M.closed_ret"]), z3.Not(s["M.in_close"])]
+          z3.Not(s["M.closed_ret"]), z3.Not(s["M.in_close"]), z3.Not(s["M.closed2_ret"]), z3.Not(s["M.c2_bad"]), z3.Not(s["M.close_called"])]
     codes = [0] + [{"pause": 1, "play": 2, "stop": 3}[o] for o in self.ops]
     for h in range(self.H):
       c += [z3.Or(*[self.CHOICE[h] == v for v in codes]), self.TARGET[h] >= 0, self.TARGET[h] < self.P]
@@ -514,7 +575,7 @@ class Model:
 
   def enabled(self, s, th):
     pc = s["pc%d" % th]
-    started = z3.BoolVal(True) if th == MAIN else s["T%d.started" % (th - 1)]
+    started = z3.BoolVal(True) if (th == MAIN or (self.closers == 2 and th == self.C2)) else s["T%d.started" % (th - 1)]
     return z3.And(started, z3.Or(*[z3.And(pc == lab, g(s)) for lab, (g, e, n) in self.progs[th].nodes.items()]))
 
   def step(self, s, s2, sched):
@@ -552,7 +613,7 @@ class Model:
       return out
     priv = {}
     for th, prog in self.progs.items():
-      if th == MAIN: continue
+      if th == MAIN or (self.closers == 2 and th == self.C2): continue
       p = th - 1
       ok = set()
       for lab, (g, e, n) in prog.nodes.items():
@@ -623,13 +684,17 @@ class Model:
                   *[z3.Or(s["T%d.open" % p], s["T%d.closed" % p] != 1,
                           z3.And(s["T%d.started" % p], z3.Not(s["T%d.done" % p]), z3.Or(s["T%d.open" % p]))) for p in range(P)])
       return z3.And(s["M.closed_ret"], bad)
+    if name == "final2":            # the second close() call returned while the manager was not shut down
+      return z3.Or(*[s["M.c2_bad"] for s in states])
     if name == "lost":
       s = states[-1]
       # a player whose backend failed delivered the chunks before the failure (order is the safety clause)
       return z3.Or(*[z3.And(s["T%d.done" % p], z3.Not(s["T%d.halting" % p]), z3.Not(s["T%d.crashed" % p]),
                             self.FAULT[p] == NOFAULT, s["T%d.written" % p] != self.L[p])
                      for p in range(P)])
-    dead = z3.Or(*[z3.And(z3.Not(anyens[t]), z3.Not(states[t]["M.closed_ret"])) for t in range(len(anyens))])
+    unfinished = (lambda st: z3.Not(st["M.closed_ret"])) if self.closers == 1 else \
+                 (lambda st: z3.Or(z3.Not(st["M.closed_ret"]), z3.Not(st["M.closed2_ret"])))
+    dead = z3.Or(*[z3.And(z3.Not(anyens[t]), unfinished(states[t])) for t in range(len(anyens))])
     if name == "deadlock_nowait":
       return z3.And(z3.Not(self.WAIT), dead)
     if name == "deadlock_wait":     # environment assumption: no player is left paused by the user when close() waits
@@ -674,6 +739,7 @@ class Model:
     sol.set("timeout", int(timeout_s * 1000))
     sol.add(*cons)
     sol.add(states[-1]["M.closed_ret"])
+    if self.closers == 2: sol.add(states[-1]["M.closed2_ret"])
     for e in extra: sol.add(e(self, states, sched))
     r = str(sol.check())
     if r != "sat": return {"result": r}
